@@ -69,7 +69,8 @@ fn temp_path(tag: &str) -> PathBuf {
 enum Peer {
     /// the receiving socket and a decoy: UDP sinks are built from the address list [peer, decoy]
     Udp(UdpSocket, UdpSocket),
-    Unix(UnixDatagram, PathBuf),
+    /// receiving socket, its path, and (kinds `unixln` / `bunixln`) the symbolic link the sink was given
+    Unix(UnixDatagram, PathBuf, Option<PathBuf>),
 }
 
 impl Peer {
@@ -80,7 +81,7 @@ impl Peer {
         loop {
             let r = match self {
                 Peer::Udp(s, _) => s.recv(&mut buf),
-                Peer::Unix(s, _) => s.recv(&mut buf),
+                Peer::Unix(s, _, _) => s.recv(&mut buf),
             };
             match r {
                 Ok(n) => out.push(buf[..n].to_vec()),
@@ -105,8 +106,18 @@ impl Peer {
     /// the receiver restarts: the old socket is unlinked and a new one bound at the same path;
     /// the old socket is kept open (anything that still reaches it is misdelivered)
     fn restart(&mut self, old: &mut Vec<UnixDatagram>) -> bool {
-        if let Peer::Unix(s, path) = self {
-            let _ = std::fs::remove_file(&*path);
+        if let Peer::Unix(s, path, link) = self {
+            if let Some(l) = link {
+                // the sink was given a symbolic link: the new receiver binds elsewhere and the link is re-pointed
+                let np = temp_path("peer");
+                let _ = std::fs::remove_file(&*l);
+                if std::os::unix::fs::symlink(&np, &*l).is_err() {
+                    return false;
+                }
+                *path = np;
+            } else {
+                let _ = std::fs::remove_file(&*path);
+            }
             match UnixDatagram::bind(&*path) {
                 Ok(n) => {
                     let _ = n.set_nonblocking(true);
@@ -136,8 +147,11 @@ impl Peer {
 
 impl Drop for Peer {
     fn drop(&mut self) {
-        if let Peer::Unix(_, p) = self {
+        if let Peer::Unix(_, p, l) = self {
             let _ = std::fs::remove_file(p);
+            if let Some(l) = l {
+                let _ = std::fs::remove_file(l);
+            }
         }
     }
 }
@@ -181,16 +195,18 @@ type DynSink = Arc<dyn MetricSink + Send + Sync + std::panic::RefUnwindSafe>;
 fn build(kind: &str, cap: &str, nb: bool) -> Option<(DynSink, Peer)> {
     let capn: Option<usize> = if cap == "d" || cap == "-" { None } else { cap.parse().ok() };
     match kind {
-        "udp" | "budp" => {
-            let peer = UdpSocket::bind("127.0.0.1:0").ok()?;
+        "udp" | "budp" | "udp6" | "budp6" => {
+            // `…6`: the first address of the list is IPv6, the second (the decoy) IPv4
+            let v6 = kind.ends_with('6');
+            let peer = UdpSocket::bind(if v6 { "[::1]:0" } else { "127.0.0.1:0" }).ok()?;
             peer.set_nonblocking(true).ok()?;
             let decoy = UdpSocket::bind("127.0.0.1:0").ok()?;
             decoy.set_nonblocking(true).ok()?;
             let addrs = [peer.local_addr().ok()?, decoy.local_addr().ok()?];
             let addr = &addrs[..];
-            let sock = UdpSocket::bind("127.0.0.1:0").ok()?;
+            let sock = UdpSocket::bind(if v6 { "[::]:0" } else { "127.0.0.1:0" }).ok()?;
             sock.set_nonblocking(nb).ok()?;
-            let sink: DynSink = if kind == "udp" {
+            let sink: DynSink = if !kind.starts_with('b') {
                 Arc::new(UdpMetricSink::from(addr, sock).ok()?)
             } else {
                 match capn {
@@ -200,13 +216,20 @@ fn build(kind: &str, cap: &str, nb: bool) -> Option<(DynSink, Peer)> {
             };
             Some((sink, Peer::Udp(peer, decoy)))
         }
-        "unix" | "bunix" | "unixgone" | "bunixgone" => {
+        "unix" | "bunix" | "unixgone" | "bunixgone" | "unixln" | "bunixln" => {
             let path = temp_path("peer");
             let peer = UnixDatagram::bind(&path).ok()?;
             peer.set_nonblocking(true).ok()?;
             let sock = UnixDatagram::unbound().ok()?;
             sock.set_nonblocking(nb).ok()?;
-            let target = if kind.ends_with("gone") { temp_path("gone") } else { path.clone() };
+            let link = if kind.ends_with("ln") {
+                let l = temp_path("link");
+                std::os::unix::fs::symlink(&path, &l).ok()?;
+                Some(l)
+            } else {
+                None
+            };
+            let target = if kind.ends_with("gone") { temp_path("gone") } else { link.clone().unwrap_or(path.clone()) };
             let sink: DynSink = if kind.starts_with("unix") {
                 Arc::new(UnixMetricSink::from(&target, sock))
             } else {
@@ -215,7 +238,7 @@ fn build(kind: &str, cap: &str, nb: bool) -> Option<(DynSink, Peer)> {
                     None => Arc::new(BufferedUnixMetricSink::from(&target, sock)),
                 }
             };
-            Some((sink, Peer::Unix(peer, path)))
+            Some((sink, Peer::Unix(peer, path, link)))
         }
         _ => None,
     }
@@ -370,7 +393,7 @@ fn run_mt(kind: &str, cap: usize, threads: usize, per: usize, flushes: bool) -> 
             let p = UnixDatagram::bind(&path).unwrap();
             let sock = UnixDatagram::unbound().unwrap();
             let s = UnixMetricSink::from(&path, sock);
-            peer = Some(Peer::Unix(p, path));
+            peer = Some(Peer::Unix(p, path, None));
             Arc::new(s)
         }
         _ => {
@@ -378,7 +401,7 @@ fn run_mt(kind: &str, cap: usize, threads: usize, per: usize, flushes: bool) -> 
             let p = UnixDatagram::bind(&path).unwrap();
             let sock = UnixDatagram::unbound().unwrap();
             let s = BufferedUnixMetricSink::with_capacity(&path, sock, cap);
-            peer = Some(Peer::Unix(p, path));
+            peer = Some(Peer::Unix(p, path, None));
             Arc::new(s)
         }
     };
@@ -391,7 +414,7 @@ fn run_mt(kind: &str, cap: usize, threads: usize, per: usize, flushes: bool) -> 
         std::thread::spawn(move || {
             let mut buf = vec![0u8; 65536];
             match &p {
-                Peer::Unix(s, _) => {
+                Peer::Unix(s, _, _) => {
                     s.set_read_timeout(Some(Duration::from_millis(20))).unwrap();
                     loop {
                         match s.recv(&mut buf) {
@@ -695,13 +718,13 @@ fn gen_ops(rng: &mut Rng, kind: &str, capn: usize, n: usize, manual: bool) -> Ve
             ops.push("f".to_string());
         } else if r < 26 && manual {
             ops.push("r".to_string());
-        } else if r < 28 && kind.contains("unix") && !kind.ends_with("gone") && !manual {
+        } else if r < (if kind.ends_with("ln") { 34 } else { 28 }) && kind.contains("unix") && !kind.ends_with("gone") && !manual {
             ops.push("R".to_string());
         } else if r < 32 {
             let big: &[usize] = if kind.contains("udp") { &[1432, 8192, 65507, 65508, 70000] } else { &[1432, 8192, 65507, 70000] };
             ops.push(format!("g{}", rng.pick(big)));
         } else if r < 40 {
-            ops.push(format!("e{}", hex(rng.pick(&["日本", "é", "", "a\nb", "x|y:z"]).as_bytes())));
+            ops.push(format!("e{}", hex(rng.pick(&["日本", "é", "", "a\nb", "x|y:z", "a\n", "\n", "k:1|c\n", "x\n\n"]).as_bytes())));
         } else {
             let room = capn.saturating_sub(1);
             let l = if buffered {
@@ -742,12 +765,14 @@ fn main() {
     let tier = arg_value(&args, "--tier").unwrap_or("quick".into());
     let mut rng = Rng::new(env_seed());
     let mut count = 0u64;
-    let n = if tier == "quick" { 500 } else { 20000 };
+    let n = if tier == "quick" { 600 } else { 24000 };
+    let have_v6 = UdpSocket::bind("[::1]:0").is_ok();
     for i in 0..n {
         if BLOCKED.load(Ordering::Relaxed) > 3 {
             break;
         }
-        let kind = *rng.pick(&["udp", "unix", "budp", "bunix", "budp", "bunix", "unixgone", "bunixgone"]);
+        let kind = *rng.pick(&["udp", "unix", "budp", "bunix", "budp", "bunix", "unixgone", "bunixgone", "unixln", "bunixln", "udp6", "budp6"]);
+        let kind = if kind.ends_with('6') && !have_v6 { &kind[..kind.len() - 1] } else { kind };
         let buffered = kind.starts_with('b');
         let (cap, capn) = if !buffered {
             ("-".to_string(), 0)
